@@ -215,3 +215,9 @@ package types
 //@   ensures [C04] forall k int :: 0 <= k && k < len(rs) ==> wfRange(rs[k])
 // (for well-formed ranges the raw order by (Low, -Hi) is the order by (Low, -upper): Hi == 0 is the narrowest range)
 //@   ensures [C04] sortedRanges(rs)
+
+// The prefixed text of an id is a function of the id (determinism; used where two sites must agree on it).
+//@ spec func userIdText(u Uid) string
+//@ func (uid Uid) UserId() (s string)
+//@   inline
+//@   ensures [assumed] s == userIdText(uid)
